@@ -20,6 +20,16 @@ CLAIMS = {
     text='TLC checks for all small inputs that the L1, conj-L1, L2-squared and conj-L2-squared (element-valued step) bodies, transcribed statement by statement with the C01 lincomb semantics, leave in x what the plain call returns (switching the model to the pinned tree body yields the ProximalL1 counter-example). On the real code every proximal factory (22 factories x lam x g x scalar/element sigma x rn / rn(120) / weighted / discretised / product spaces), every Functional-API proximal, the building-block operators solvers apply in place (scaling, multiplication, identity, zero, constant) and ~1200 operator-arithmetic wrappers (OpMachine programs whose nonlinear leaves are replaced by proximals) are called as y = x.copy(); P(y, out=y) and compared with P(x); each call is one event validated by TLC.',
     note='Trusted: TLC; comparison of two real runs (relative tolerance 1e-9). Operators outside the kinds named by the property (finite differences, component projection) are exercised and listed as informational only.',
     ref='4/C10'),
+ 'C13': dict(
+    technique='TLA+ reference stencils (FDSem) vs statement-level model of finite_diff (FDImpl) checked by TLC over methods x paddings x sizes; per-configuration export replayed on real finite_diff / PartialDerivative / Gradient / Divergence / Laplacian via unit vectors; TLC trace validation (Trace_FD)',
+    text='TLC checks FDImpl = textbook stencil on the one-cell extension (full matrices and affine parts) for 3 methods x 10 padding modes x n in 2..7 x pad constants x cell sides, that inadmissible lengths are refused, AdjointIsTranspose (incl. the _ADJ_METHOD/_ADJ_PADDING pairing and sign), Div = -Grad^T, derivative of the constant-padding variant = zero-padding variant, and reference laws (constants annihilated, order1/order2 exact on ramps, periodic circulant, Laplacian = forward - backward); N-d Gradient/Divergence/Laplacian on 6-14 shapes with distinct cell sides. ~6200 exported configurations are replayed on the real code (1-3 d, every axis, f32/f64/c64/c128, C/F/strided, NaN-prefilled out, operators incl. .adjoint and .derivative on uniformly weighted spaces) - ~65k real calls - and ~13.6k recorded events are validated by TLC.',
+    note='Trusted: TLC; dyadic cell sides so all values are exact. "symmetric" follows code and tests (edge-inclusive mirror), "order2" = one-sided three-point edge rows. nodes_on_bdry=True / non-default weightings are left to C05 (property says "on uniformly weighted spaces").',
+    ref='4/C13'),
+ 'C16': dict(
+    technique='TLA+ source-map reference (ResizeSem) vs model of the slice arithmetic of resize_array/_apply_padding/_resize_discr (ResizeImpl) checked by TLC; per-configuration export replayed on real resize_array and ResizingOperator; TLC trace validation (Trace_Resize)',
+    text='TLC checks ImplCorrect (slice arithmetic = reference, refusal exactly outside the documented length restrictions), AdjointIsTranspose, ExtendThenCropIsIdentity, OverlapCopied, AxisOrderIrrelevant, LinearRampLaw, ComplexAgrees and the range-geometry model for all n_in, n_out in 1..5 x offsets x 5 modes x {forward c=0, forward c=3, adjoint} in 1-d and every grow/shrink mixture with per-axis sizes 1..3 in 2-d. ~5200 exported configurations are replayed on the real code (int32/int64/float/complex, with/without out, C/F order, restricted axes, numpy.pad agreement, ResizingOperator call/adjoint/inverse via ran_shp, explicit range and default offset, adjoint identities in the weighted inner products, padding larger than the array) - ~47k real calls - and ~17k recorded events are validated by TLC.',
+    note='Trusted: TLC. When shrinking by an odd number with the default offset either side may lose the extra cell; .inverse values are compared only where the inverse is a pure crop.',
+    ref='4/C16'),
  'C04': dict(
     technique='TLA+ expression stack machine (OpMachine) with reference semantics OpSem; TLC exhaustive + simulated program export replayed through the real Python overloads; layer-C model of class selection / scalar merging (RewriteImpl) refined against the table; TLC trace validation (Trace_OpMachine)',
     text='A behaviour of OpMachine is a well-typed operator program. TLC enumerates all programs with <= 3 construction steps over 12 leaf kinds and 16 combinators (real, array-weighted real, complex), checks sanity invariants of the reference (structural linearity implies additivity, adjoint identity, stencil derivative) and that the layer-C transcription of the overload rules evaluates to the documented table (it exhibits the pinned tree\'s (A*a)*B defect as a counter-example when the slip is switched on), exports every program with Eval at probe points, domain, range and linearity, plus -simulate behaviours up to 7 steps. Each program is rebuilt from real ODL operators via +,-,*,/,** and evaluated out-of-place and in-place (NaN-prefilled out) on 2 and 120 entries; every real evaluation is re-evaluated by TLC from the logged program.',
